@@ -132,6 +132,7 @@ FAULT_MODES = [
     ('eintr', ['--f-eintr=0.2']),
     ('wakedelay', ['--f-wake-delay=0.3']),
     ('enosys', ['--f-enosys=1']),
+    ('enosys-wait', ['--f-enosys-wait=0.6']),     # spurious ENOSYS from FUTEX_WAIT only: wakes still go to the kernel
     ('realsig', ['--sig-all=1', '--sig-period-us=60']),
     ('mixed', ['--f-spurious=0.1', '--f-eintr=0.1', '--f-wake-delay=0.1', '--sig-all=1', '--sig-period-us=200']),
 ]
@@ -156,7 +157,7 @@ def c02(tier, seed):
             out.append(case('%s-%s' % (fl, fm), 'gp', fl, 'plain',
                             ['--cfg=%s-%s' % (fl, fm), '--scenarios=%d' % (120 * scale), '--readers=3', '--updaters=3',
                              '--gps=120', '--reader-sections=400', '--tun-qs=%d' % qs, '--tun-wait=%d' % wt,
-                             '--hook-prob=0.01', '--churn=1'] + fargs, {}, cpus=4, timeout=200 * scale))
+                             '--hook-prob=0.01', '--churn=1', '--reg-handshake=1'] + fargs, {}, cpus=4, timeout=200 * scale))
         # single reader / single updater tight loop: the lost wake-up window
         out.append(case('%s-pair' % fl, 'gp', fl, 'plain',
                         ['--cfg=%s-pair' % fl, '--scenarios=%d' % (20 * scale), '--readers=1', '--updaters=1',
@@ -197,7 +198,7 @@ def c15(tier, seed):
     for name, fl, env, extra in GP_CFGS[:4]:
         out.append(case('churn-%s' % name, 'gp', fl, 'plain',
                         ['--cfg=churn-%s' % name, '--readers=5', '--updaters=2', '--gps=%d' % (3000 * scale), '--churn=1',
-                         '--tun-qs=%d' % (2 + seed % 3), '--hook-prob=0.004'] + extra, env, cpus=8, timeout=240 * scale))
+                         '--tun-qs=%d' % (2 + seed % 3), '--hook-prob=0.004', '--reg-handshake=1'] + extra, env, cpus=8, timeout=240 * scale))
         out.append(case('churn-scen-%s' % name, 'gp', fl, 'plain',
                         ['--cfg=churn-scen-%s' % name, '--scenarios=%d' % (150 * scale), '--readers=4', '--updaters=2',
                          '--gps=80', '--reader-sections=150', '--churn=1', '--tun-qs=2', '--tun-wait=2',
